@@ -289,18 +289,23 @@ class Ctx:
             self.pc.append(cond if d else tm.bnot(cond))
             return d
         ps = self.ex.psolver
-        # implied by a conjunct already on the path?
+        # every symbolic branch records a decision (also implied ones) so that replays stay aligned
+        implied = None
         for c in self.pc:
             if c is cond:
-                return True
-        rt = ps.check(self.pc + [cond])
-        rf = ps.check(self.pc + [tm.bnot(cond)])
-        if rt == 'unsat' and rf == 'unsat':
-            raise Infeasible()
-        if rf == 'unsat':
-            return True  # implied; no decision recorded
-        if rt == 'unsat':
-            return False
+                implied = True
+        if implied is None:
+            rt = ps.check(self.pc + [cond])
+            rf = ps.check(self.pc + [tm.bnot(cond)])
+            if rt == 'unsat' and rf == 'unsat':
+                raise Infeasible()
+            if rf == 'unsat':
+                implied = True
+            elif rt == 'unsat':
+                implied = False
+        if implied is not None:
+            self.decisions.append(implied)
+            return implied
         self.ex.queue(self.decisions + [False])
         self.decisions.append(True)
         self.pc.append(cond)
@@ -326,6 +331,7 @@ class Ctx:
         if not vals:
             raise Infeasible()
         if len(vals) == 1:
+            self.decisions.append(vals[0])
             return vals[0]
         for v in vals[1:]:
             self.ex.queue(self.decisions + [v])
@@ -407,6 +413,7 @@ class Machine:
         self.index_log = None  # list of symbolic indices
         self.instr_count = 0
         self.alloc_label = ''
+        self.concretize_slices = False  # symbolic slice offsets/lengths are kept symbolic (concretised on demand)
         from . import builtins_go
         builtins_go.install(self)
 
@@ -968,9 +975,19 @@ def _check_index(m, idx, n, w, pos):
     return idx
 
 
+def _to64(m, v, tid):
+    """widen an index/bound operand of integer type tid to 64 bits"""
+    if tid is None:
+        return v
+    t = m.prog.under(tid)
+    if not t.get('int') or 'bits' not in t or t['bits'] == 64:
+        return v
+    return tm.convert(v, t['bits'], 64, t['signed'])
+
+
 def _i_indexaddr(m, fr, I):
     x = m.value(fr, I['x'])
-    idx = m.value(fr, I['idx'])
+    idx = _to64(m, m.value(fr, I['idx']), I.get('idxt'))
     if m.index_log is not None and isinstance(idx, T):
         m.index_log.append((I.get('pos'), idx))
     if isinstance(x, Slice):
@@ -991,7 +1008,7 @@ def _i_indexaddr(m, fr, I):
 
 def _i_index(m, fr, I):
     x = m.value(fr, I['x'])
-    idx = m.value(fr, I['idx'])
+    idx = _to64(m, m.value(fr, I['idx']), I.get('idxt'))
     if isinstance(x, str):
         if isinstance(idx, T):
             raise Unsupported("symbolic string index")
@@ -1085,9 +1102,9 @@ def _i_typeassert(m, fr, I):
 
 def _i_slice(m, fr, I):
     x = m.value(fr, I['x'])
-    lo = m.value(fr, I['lo']) if I['lo'] is not None else None
-    hi = m.value(fr, I['hi']) if I['hi'] is not None else None
-    mx = m.value(fr, I['max']) if I['max'] is not None else None
+    lo = _to64(m, m.value(fr, I['lo']), I.get('lot')) if I['lo'] is not None else None
+    hi = _to64(m, m.value(fr, I['hi']), I.get('hit')) if I['hi'] is not None else None
+    mx = _to64(m, m.value(fr, I['max']), I.get('maxt')) if I['max'] is not None else None
     fr[I['n']] = m.do_slice(x, lo, hi, mx, I)
 
 
@@ -1114,12 +1131,13 @@ def _do_slice(m, x, lo, hi, mx, I):
     lo = 0 if lo is None else lo
     hi = ln if hi is None else hi
     mxv = cp if mx is None else mx
-    if isinstance(lo, T):
-        lo = m.ctx.concretize(lo, 64, 'slice lo')
-    if isinstance(hi, T):
-        hi = m.ctx.concretize(hi, 64, 'slice hi')
-    if isinstance(mxv, T):
-        mxv = m.ctx.concretize(mxv, 64, 'slice max')
+    if m.concretize_slices:
+        if isinstance(lo, T):
+            lo = m.ctx.concretize(lo, 64, 'slice lo')
+        if isinstance(hi, T):
+            hi = m.ctx.concretize(hi, 64, 'slice hi')
+        if isinstance(mxv, T):
+            mxv = m.ctx.concretize(mxv, 64, 'slice max')
     # bounds: 0 <= lo <= hi <= max <= cap
     conds = [tm.ule(lo, hi, 64), tm.ule(hi, mxv, 64), tm.ule(mxv, cp, 64)]
     bad = tm.bnot(tm.band_all(conds))
@@ -1151,8 +1169,8 @@ def _i_slice2arrptr(m, fr, I):
 
 
 def _i_makeslice(m, fr, I):
-    ln = m.value(fr, I['len'])
-    cp = m.value(fr, I['cap'])
+    ln = _to64(m, m.value(fr, I['len']), I.get('lent'))
+    cp = _to64(m, m.value(fr, I['cap']), I.get('capt'))
     if isinstance(cp, T):
         cp = m.ctx.concretize(cp, 64, 'makeslice cap')
     if isinstance(ln, T):
